@@ -71,6 +71,11 @@ class Emitter:
             ptype = BASE[d["dct"]["base"]]
             self.layer.dops.append(og.dop(oid, name, self.dct(d["dct"], key_ids), ptype=ptype))
             return oid
+        if k == "dtc":
+            oid, name = self.uid("DTC")
+            self.layer.dtc_dops.append(og.dtc_dop(oid, name, self.dct(d["dct"], key_ids),
+                                                  [(f"{oid}.{c}", f"P{c:06X}", c, f"fault {c}") for c in d["codes"]]))
+            return oid
         if k == "struct":
             oid, name = self.uid("ST")
             params = self.params(d["ps"], f"{oid}.")
@@ -210,6 +215,8 @@ def dop_py(d: Dict[str, Any], v: Dict[str, Any]) -> Any:
     if v["t"] == "bad":
         return BAD[v["name"]]
     k = d.get("k")
+    if k == "dtc":
+        return atom_py(v, d["dct"])
     if k == "simple":
         return atom_py(v, d["dct"])
     if k == "struct":
@@ -246,6 +253,10 @@ def dict_py(ps: List[Dict[str, Any]], v: Dict[str, Any]) -> Dict[str, Any]:
 
 def same(a: Any, b: Any) -> bool:
     """Equality of decoded values; floats by bit pattern (NaN-safe), bytes-like by content."""
+    if hasattr(a, "trouble_code"):
+        a = a.trouble_code            # a DTC object stands for its trouble code
+    if hasattr(b, "trouble_code"):
+        b = b.trouble_code
     if isinstance(a, (bytes, bytearray)) and isinstance(b, (bytes, bytearray)):
         return bytes(a) == bytes(b)
     if isinstance(a, float) and isinstance(b, float):
@@ -348,7 +359,7 @@ def shape(ps: List[Dict[str, Any]]) -> Dict[str, Any]:
         if k in (None, "none"):
             return
         dops.append(k)
-        if k == "simple":
+        if k in ("simple", "dtc"):
             c = d["dct"]
             dcts.append(f"{c['k']}:{c['base']}:{c['enc']}")
         elif k == "struct":
